@@ -41,6 +41,53 @@ type mconnCase struct {
 	// NoFollower: nothing is sent after the scenario's own messages (otherwise a
 	// 7-byte message follows on every channel)
 	NoFollower bool `json:"no_follower,omitempty"`
+	// IdleBefore: indices of Sends that are handed to Send only when everything
+	// accepted before has been delivered, i.e. on an idle connection (serial scenarios only)
+	IdleBefore []int `json:"idle_before,omitempty"`
+	// Large: the channels have receive capacity mconnLargeCap instead of chanRecvMsgCap
+	Large bool `json:"large,omitempty"`
+	// Words: the messages of mconnLargeMin bytes and more are arrays of 16-bit
+	// words (encoded element by element) instead of byte arrays (encoded by one
+	// copy); the encoded bytes are the same
+	Words bool `json:"words,omitempty"`
+}
+
+// the large-message scenarios: channels of 4 MiB receive capacity
+const (
+	mconnLargeCap = 4 << 20
+	mconnLargeMin = 1 << 20
+)
+
+// sizeClass of a message of the scenario, relative to the capacity of its channels
+func (mc mconnCase) sizeClass(n int) string {
+	if !mc.Large {
+		return sizeClass(n)
+	}
+	switch {
+	case n > mconnLargeCap:
+		return "oversize"
+	case n == mconnLargeCap:
+		return "at-capacity"
+	case n >= mconnLargeMin:
+		return "large"
+	}
+	return sizeClass(n)
+}
+
+func (mc mconnCase) idleBefore(i int) bool {
+	for _, j := range mc.IdleBefore {
+		if i == j {
+			return true
+		}
+	}
+	return false
+}
+
+func (mc mconnCase) capacity() int {
+	if mc.Large {
+		return mconnLargeCap
+	}
+	return chanRecvMsgCap
 }
 
 const mconnSentinel = 7
@@ -50,7 +97,31 @@ const mconnSentinel = 7
 // code needs milliseconds for a scenario.
 const mconnIdleDeadline = 30 * time.Second
 
-var byteType = reflect.TypeOf(byte(0))
+var (
+	byteType = reflect.TypeOf(byte(0))
+	wordType = reflect.TypeOf(uint16(0))
+)
+
+// wordsMsg returns an array of 16-bit words whose wire encoding is exactly the
+// given bytes (an even number of them): the encoder writes such a value element
+// by element, as it does for the slices and structs of real reactor messages.
+func wordsMsg(b []byte) interface{} {
+	n := len(b) / 2
+	s := make([]uint16, n)
+	for i := range s {
+		s[i] = uint16(b[2*i])<<8 | uint16(b[2*i+1])
+	}
+	v := reflect.New(reflect.ArrayOf(n, wordType)).Elem()
+	reflect.Copy(v, reflect.ValueOf(s))
+	return v.Interface()
+}
+
+func (mc mconnCase) msg(b []byte) interface{} {
+	if mc.Words && len(b) >= mconnLargeMin && len(b)%2 == 0 {
+		return wordsMsg(b)
+	}
+	return rawMsg(b)
+}
 
 // rawMsg returns a value whose wire encoding is exactly the given bytes (a
 // byte array is written without length prefix).
@@ -67,6 +138,12 @@ func checkRawMsgEncoding() {
 		b := pattern(n, 3)
 		if enc := wire.BinaryBytes(rawMsg(b)); !bytes.Equal(enc, b) {
 			core.Fatal("harness: wire.BinaryBytes of a %d-byte array has %d bytes", n, len(enc))
+		}
+	}
+	for _, n := range []int{2, 4096, mconnLargeMin} {
+		b := pattern(n, 4)
+		if enc := wire.BinaryBytes(wordsMsg(b)); !bytes.Equal(enc, b) {
+			core.Fatal("harness: wire.BinaryBytes of an array of %d 16-bit words is not the %d bytes it was made from", n/2, n)
 		}
 	}
 }
@@ -125,8 +202,36 @@ func mconnScenarios() []mconnCase {
 	out = append(out, mconnCase{Name: "oversize-other-channel-busy", Concurrent: true, Sends: []mconnSend{{1, 1024}, {0, 4097}}})
 	out = append(out, mconnCase{Name: "burst-small", Sends: []mconnSend{{0, 1}, {0, 1}, {0, 1}, {0, 1}, {0, 1}, {0, 1}, {1, 1}, {1, 1}, {1, 1}, {1, 1}}})
 	out = append(out, mconnCase{Name: "burst-capacity", Concurrent: true, Sends: []mconnSend{{0, 4096}, {0, 4096}, {0, 4096}, {0, 4096}, {1, 4096}, {1, 4096}, {1, 4096}, {1, 4096}}})
+	// ONE large message and nothing afterwards (no later message, whose Send would
+	// make the send routine look at the queues again): as the first thing on the
+	// connection, and on an idle connection (after a small message has been
+	// delivered); sizes 1 MiB and the channel's capacity (4 MiB), either channel,
+	// both ways of encoding
+	for _, size := range mconnLargeSizes {
+		for ch := 0; ch < 2; ch++ {
+			for _, words := range []bool{false, true} {
+				enc := "bytes"
+				if words {
+					enc = "words"
+				}
+				out = append(out, mconnCase{Name: fmt.Sprintf("large-first-%d-ch%d-%s", size, ch, enc), Large: true, Words: words, NoFollower: true,
+					Sends: []mconnSend{{ch, size}}})
+				out = append(out, mconnCase{Name: fmt.Sprintf("large-on-idle-%d-ch%d-%s", size, ch, enc), Large: true, Words: words, NoFollower: true,
+					Sends: []mconnSend{{ch, mconnSentinel}, {ch, size}}, IdleBefore: []int{1}})
+			}
+		}
+	}
+	// two large messages, the second one when the first has arrived; a small one on the idle connection after a large one
+	out = append(out, mconnCase{Name: "large-idle-large", Large: true, Words: true, NoFollower: true,
+		Sends: []mconnSend{{0, mconnLargeMin}, {1, mconnLargeMin}}, IdleBefore: []int{1}})
+	out = append(out, mconnCase{Name: "large-idle-small", Large: true, NoFollower: true,
+		Sends: []mconnSend{{0, mconnLargeMin}, {0, 1}, {1, 1024}}, IdleBefore: []int{1, 2}})
+	out = append(out, mconnCase{Name: "large-oversize-on-idle", Large: true, NoFollower: true,
+		Sends: []mconnSend{{0, mconnSentinel}, {0, mconnLargeCap + 1}}, IdleBefore: []int{1}})
 	return out
 }
+
+var mconnLargeSizes = []int{mconnLargeMin, mconnLargeCap}
 
 type mconnOutcome struct {
 	verdict string // ok | inconclusive | timeout | <violation kind>
@@ -137,10 +242,10 @@ type mconnOutcome struct {
 
 var mconnChIDs = []byte{0x20, 0x21}
 
-func mconnDescs() []*p2p.ChannelDescriptor {
+func mconnDescs(capacity int) []*p2p.ChannelDescriptor {
 	return []*p2p.ChannelDescriptor{
-		{ID: mconnChIDs[0], Priority: 1, SendQueueCapacity: chanSendQueueCap, RecvMessageCapacity: chanRecvMsgCap},
-		{ID: mconnChIDs[1], Priority: 5, SendQueueCapacity: chanSendQueueCap, RecvMessageCapacity: chanRecvMsgCap},
+		{ID: mconnChIDs[0], Priority: 1, SendQueueCapacity: chanSendQueueCap, RecvMessageCapacity: capacity},
+		{ID: mconnChIDs[1], Priority: 5, SendQueueCapacity: chanSendQueueCap, RecvMessageCapacity: capacity},
 	}
 }
 
@@ -150,6 +255,9 @@ func mconnDescs() []*p2p.ChannelDescriptor {
 // handed to Send on that channel, or when nothing has happened for idle.
 func mconnRun(mc mconnCase, idle time.Duration, alive func()) (o mconnOutcome) {
 	start := time.Now()
+	capacity := mc.capacity()
+	stop := make(chan struct{})
+	defer close(stop)
 	inconclusive := func(why string) mconnOutcome {
 		return mconnOutcome{verdict: "inconclusive", detail: fmt.Sprintf("%s after %.1fs", why, time.Since(start).Seconds())}
 	}
@@ -237,8 +345,8 @@ func mconnRun(mc mconnCase, idle time.Duration, alive func()) (o mconnOutcome) {
 		notify()
 	}
 	var sendErr atomic.Value
-	sender := p2p.NewMConnection(conf, sc[0], mconnDescs(), func(byte, []byte) {}, func(r interface{}) { sendErr.Store(fmt.Sprint(r)); notify() })
-	receiver := p2p.NewMConnection(conf, sc[1], mconnDescs(), onReceive, onRecvErr)
+	sender := p2p.NewMConnection(conf, sc[0], mconnDescs(capacity), func(byte, []byte) {}, func(r interface{}) { sendErr.Store(fmt.Sprint(r)); notify() })
+	receiver := p2p.NewMConnection(conf, sc[1], mconnDescs(capacity), onReceive, onRecvErr)
 	toStop = []*p2p.MConnection{sender, receiver}
 	sender.Start()
 	receiver.Start()
@@ -249,7 +357,8 @@ func mconnRun(mc mconnCase, idle time.Duration, alive func()) (o mconnOutcome) {
 		mu.Lock()
 		offered[ch] = append(offered[ch], body)
 		mu.Unlock()
-		ok := sender.Send(mconnChIDs[ch], rawMsg(body))
+		msg := mc.msg(body)
+		ok := sender.Send(mconnChIDs[ch], msg)
 		mu.Lock()
 		decided[ch]++
 		if ok {
@@ -257,6 +366,25 @@ func mconnRun(mc mconnCase, idle time.Duration, alive func()) (o mconnOutcome) {
 		}
 		mu.Unlock()
 		notify()
+	}
+	// waitIdle: until every message accepted so far has been delivered (false: the run is over)
+	waitIdle := func() bool {
+		for {
+			mu.Lock()
+			idleNow := recvErr == nil
+			for ch := 0; ch < 2; ch++ {
+				idleNow = idleNow && len(received[ch]) >= len(accepted[ch])
+			}
+			mu.Unlock()
+			if idleNow {
+				return true
+			}
+			select {
+			case <-stop:
+				return false
+			case <-time.After(time.Millisecond):
+			}
+		}
 	}
 	var swg sync.WaitGroup
 	if mc.Concurrent {
@@ -280,7 +408,10 @@ func mconnRun(mc mconnCase, idle time.Duration, alive func()) (o mconnOutcome) {
 		swg.Add(1)
 		go func() {
 			defer swg.Done()
-			for _, s := range mc.Sends {
+			for i, s := range mc.Sends {
+				if mc.idleBefore(i) && !waitIdle() {
+					return
+				}
 				sendOne(s.Ch, s.Size, uint64(5000+s.Ch*100+seq[s.Ch]))
 				seq[s.Ch]++
 			}
@@ -336,11 +467,11 @@ func mconnRun(mc mconnCase, idle time.Duration, alive func()) (o mconnOutcome) {
 		expect := append(append([][]byte(nil), accepted[ch]...), offered[ch][decided[ch]:]...)
 		for i, m := range received[ch] {
 			if i >= len(expect) {
-				return mconnOutcome{verdict: "extra-message", size: sizeClass(len(m)), shape: shapeClass(len(m)), detail: fmt.Sprintf("channel %d delivered %d messages, only %d were accepted", ch, len(received[ch]), len(expect))}
+				return mconnOutcome{verdict: "extra-message", size: mc.sizeClass(len(m)), shape: shapeClass(len(m)), detail: fmt.Sprintf("channel %d delivered %d messages, only %d were accepted", ch, len(received[ch]), len(expect))}
 			}
 			want := expect[i]
-			if len(want) > chanRecvMsgCap {
-				return mconnOutcome{verdict: "oversize-delivered", size: "oversize", shape: shapeClass(len(want)), detail: fmt.Sprintf("channel %d message #%d: a %d-byte message was delivered (%d bytes) through capacity %d", ch, i, len(want), len(m), chanRecvMsgCap)}
+			if len(want) > capacity {
+				return mconnOutcome{verdict: "oversize-delivered", size: "oversize", shape: shapeClass(len(want)), detail: fmt.Sprintf("channel %d message #%d: a %d-byte message was delivered (%d bytes) through capacity %d", ch, i, len(want), len(m), capacity)}
 			}
 			if !bytes.Equal(m, want) {
 				kind := "corrupted"
@@ -349,7 +480,7 @@ func mconnRun(mc mconnCase, idle time.Duration, alive func()) (o mconnOutcome) {
 				} else if i+1 < len(expect) && bytes.Equal(m, expect[i+1]) {
 					kind = "message-lost"
 				}
-				return mconnOutcome{verdict: kind, size: sizeClass(len(want)), shape: shapeClass(len(want)), detail: fmt.Sprintf("channel %d message #%d: delivered %d bytes, accepted message has %d encoded bytes", ch, i, len(m), len(want))}
+				return mconnOutcome{verdict: kind, size: mc.sizeClass(len(want)), shape: shapeClass(len(want)), detail: fmt.Sprintf("channel %d message #%d: delivered %d bytes, accepted message has %d encoded bytes", ch, i, len(m), len(want))}
 			}
 		}
 	}
@@ -357,7 +488,7 @@ func mconnRun(mc mconnCase, idle time.Duration, alive func()) (o mconnOutcome) {
 		// legitimate only if some offered-but-undelivered message is oversize
 		for ch := 0; ch < 2; ch++ {
 			for i := len(received[ch]); i < len(offered[ch]); i++ {
-				if len(offered[ch][i]) > chanRecvMsgCap {
+				if len(offered[ch][i]) > capacity {
 					return mconnOutcome{verdict: "ok", detail: "overflow error"}
 				}
 			}
@@ -372,10 +503,10 @@ func mconnRun(mc mconnCase, idle time.Duration, alive func()) (o mconnOutcome) {
 		for ch := 0; ch < 2; ch++ {
 			if i := len(received[ch]); i < len(accepted[ch]) {
 				m := accepted[ch][i]
-				if len(m) > chanRecvMsgCap {
+				if len(m) > capacity {
 					return inconclusive("an oversize message is outstanding and the receiver has not reported an error")
 				}
-				return mconnOutcome{verdict: "timeout", size: sizeClass(len(m)), shape: shapeClass(len(m)),
+				return mconnOutcome{verdict: "timeout", size: mc.sizeClass(len(m)), shape: shapeClass(len(m)),
 					detail: fmt.Sprintf("channel %d: message #%d (%d encoded bytes) was accepted by Send and has not been delivered; %d of %d accepted messages of the channel were delivered, then nothing happened for %v (no delivery, no error)", ch, i, len(m), len(received[ch]), len(accepted[ch]), idle)}
 			}
 		}
